@@ -35,7 +35,7 @@ TIMEOUT = {"quick": 1200, "thorough": 7200}
 
 
 def plan(tier, seed):
-    return [{"shard": i, "programs": 2 if tier == "quick" else 24, "threaded": 0 if tier == "quick" else 2} for i in range(16)]
+    return [{"shard": i, "programs": 2 if tier == "quick" else 24, "threaded": 0 if tier == "quick" else 6} for i in range(16)]
 
 
 def rand_seed(rng):
@@ -201,12 +201,43 @@ def run_threaded(ctx, aotools, rng, pid):
 
     old = sys.getswitchinterval()
     sys.setswitchinterval(1e-6)
+    # yield injection: at statement starts inside aotools, hand the GIL over with a seeded probability, so that the
+    # threads interleave inside the library's own functions and not only at the interpreter's switch interval
+    mon = getattr(sys, "monitoring", None)
+    tool = None
+    yields = [0]
+    inj = random.Random(int(rng.integers(0, 2 ** 31)))
+    lock = threading.Lock()
+    if mon is not None:
+        try:
+            tool = mon.PROFILER_ID
+            mon.use_tool_id(tool, "aomon-yield-injection")
+
+            def on_line(code, line):
+                if "/aotools/" not in code.co_filename:
+                    return mon.DISABLE
+                with lock:
+                    hit = inj.random() < 0.02
+                if hit:
+                    yields[0] += 1
+                    import time
+                    time.sleep(0)
+
+            mon.register_callback(tool, mon.events.LINE, on_line)
+            mon.set_events(tool, mon.events.LINE)
+        except ValueError:
+            tool = None
     try:
         ts = [threading.Thread(target=work, args=(i,)) for i in range(nthreads)]
         [t.start() for t in ts]
         [t.join() for t in ts]
     finally:
         sys.setswitchinterval(old)
+        if tool is not None:
+            mon.set_events(tool, 0)
+            mon.register_callback(tool, mon.events.LINE, None)
+            mon.free_tool_id(tool)
+    ctx.count("yield_injections", yields[0])
     wit = {"threads": nthreads, "objects": news}
     ctx.case("threaded_program", key=("thr", pid, ctx.seed, ctx.shard), nontrivial=True)
     ctx.check(not errs, "threaded:exception", "a thread raised: %s" % errs[:2], wit)
